@@ -9,7 +9,10 @@ LEVEL_TEXT = ("Deductive, all inputs and all histories: every method of Componen
               "termination measures, c_push, c_pop, c_change_score, c_get_score_by_item, size, c_is_empty, is_empty) is verified against a data-structure "
               "contract - representation invariant + whole abstract view (item -> score map; representative = minimum of the class) - with obligations generated "
               "from the real source and discharged by z3/cvc5 on every run; the history statements (pops are non-increasing, the view is the least equivalence "
-              "with minimum representatives, the lexicographic order is a strict weak order) are lemmas over those contracts. Bounded stand-in (redundant when all "
+              "with minimum representatives, the lexicographic order is a strict weak order) are lemmas over those contracts, and four client lemmas - short client functions verified "
+              "modularly against the contracts only - state what a caller observes across operations: after merge(x, y) find(x) == find(y) == the smaller old representative "
+              "and a third value moves only with its class; after push / change_score the item looks up to exactly that score and every other item keeps its score or "
+              "absence; after pop the popped item is gone and every other item keeps its score. Bounded stand-in (redundant when all "
               "obligations discharge): the compiled queue and the finder against executable abstract models on all admissible histories up to length 5/6.")
 LEVEL_NOTE = ("Trusted: z3/cvc5, vcgen's semantics of the Python/Cython subset (cross-checked against CPython for the Python part), integer model of the generic value "
               "type, the meta-level induction principle behind two lemma pairs. The Python-level wrappers push/pop/change_score (_pyscore_to_vector, new/del) are "
